@@ -30,7 +30,9 @@ LEVEL_NOTE = ("trusted: Lean kernel + propext/Classical.choice/Quot.sound, the h
               "wire codec; CPython is modelled not verified. Judged domain of configuration names: C-<a..z, A..Z>, M-<0x20..0x7e> and "
               "three non-ASCII representatives, F1-F12, SPECIALS, the empty name; OPEN FINDING D42 (C-<UPPER-CASE>, M-<non-ASCII> map "
               "to names never produced): C20_config_partial carries the complement, C20_D42_witness refutes the full statement. "
-              "The mode theorems cover utf-8, ascii, latin-1; utf-16, utf-16-le, utf-32, cp1252 are judged on the real code only "
+              "C20's theorems rest on the table premises of Proofs/KeysCore.lean only (curses keys within curtsies keys, prefix set "
+              "= recomputation, multi-byte entries ESC-initiated, sizes, unique keys) and do not import C03's 'multi-byte entries "
+              "are ASCII' obligation. The mode theorems cover utf-8, ascii, latin-1; utf-16, utf-16-le, utf-32, cp1252 are judged on the real code only "
               "(oracle without a model line)")
 
 # encodings outside the modelled domain, judged on the real code only (no driver line): the decoder treats them as
@@ -147,18 +149,22 @@ def check(ctx, search=False):
     seqs += [bytes(ctx.rng.choice((ctx.rng.randrange(256), ctx.rng.choice(kc.ALPHA18))) for _ in range(ctx.rng.randint(1, 5))) for _ in range(300)]
     kn = [("keyname", enc, mode, hx(x)) for x in seqs for enc in ENCS for mode in MODES]
 
+    key_name = getattr(ev, "_key_name", None)      # private helper: used when it exists, never needed for the verdict
+
     def kn_impl(c):
         _, enc, mode, h = c
         try:
-            return "ok " + kc.enc_key(ev._key_name(unhx(h), ENCS[enc], MODES[mode]))
+            return "ok " + kc.enc_key(key_name(unhx(h), ENCS[enc], MODES[mode]))
         except Exception as e:  # noqa: BLE001
             return kc.exc_kind(e)
-    if not search:
-        ctx.tie("C20/key_name", kn, lambda c: "keyname %s %s %s" % c[1:], kn_impl)
-    for c in kn:
-        ctx.count(c, tag="key_name")
-        if c[2] == "curses" and kn_impl(c).startswith("E:NotImplementedError"):
-            ctx.violation("curses naming raises NotImplementedError where the other modes name the key", c, None)
+    if key_name is None:
+        ctx.note("events._key_name no longer exists: the naming step is observed through get_key only")
+    else:
+        if not search:
+            # the naming step in isolation, also on byte strings get_key never hands it: representation level
+            ctx.tie("C20/key_name", kn, lambda c: "keyname %s %s %s" % c[1:], kn_impl, level="representation")
+        for c in kn:
+            ctx.count(c, tag="key_name")
     # ---- modes along the decision tree ------------------------------------------------------------------------
     for enc, nodes in c03.trees(ctx).items():
         cases = [("getkey", enc, mode, full, hx(n)) for n in nodes for full in (0, 1) for mode in MODES]
@@ -201,9 +207,10 @@ def check(ctx, search=False):
         for w, fp in b:
             ctx.violation(w, ("segment", it[0], "curtsies", 0, hx(b"".join(it[1]))), fp)
     # ---- configuration names --------------------------------------------------------------------------------------
-    names = [("keymap", n) for n in VALID + CATALOGUE]
     if not search:
-        ctx.tie("C20/keymap", names, line, impl)
+        ctx.tie("C20/keymap", [("keymap", n) for n in VALID], line, impl)
+        # names the property is silent on (malformed, other spellings): a maintainer may start accepting them
+        ctx.tie("C20/keymap-catalogue", [("keymap", n) for n in CATALOGUE], line, impl, level="representation")
     prod = producible()
     ctx.exhaustive.append("configuration names: %d valid + %d catalogue; decoder-producible names: %d" % (len(VALID), len(CATALOGUE), len(prod)))
     for n in VALID:
